@@ -733,3 +733,174 @@ Proof.
   injection H1 as <- <-. injection H2 as <- <-. split; [reflexivity|].
   exact (O5_disable_or fa (scfg_of c ns0) thr P C lt lf E1 E2).
 Qed.
+
+(** ** G. C14 at run level: switching inverse paths on leaves the direct part
+    of every shape untouched *)
+
+(** the front without inverse paths is the stripped front with them (P1, for
+    the tracker's own instance dictionary: no side condition, cleaning included) *)
+Lemma front_inverse_flag c g :
+  front (rwith_inverse false c) g =
+  match front (rwith_inverse true c) g with
+  | inl (P, C) => inl (dmapv strip_c P, C)
+  | inr e => inr e
+  end.
+Proof.
+  unfold front.
+  change (track (r_tau (rwith_inverse false c)) (tmode_of (rwith_inverse false c)) (r_cap (rwith_inverse false c)) g)
+    with (track (r_tau c) (tmode_of c) (r_cap c) g).
+  change (track (r_tau (rwith_inverse true c)) (tmode_of (rwith_inverse true c)) (r_cap (rwith_inverse true c)) g)
+    with (track (r_tau c) (tmode_of c) (r_cap c) g).
+  destruct (track (r_tau c) (tmode_of c) (r_cap c) g) as [ins|e] eqn:Ht; [|reflexivity].
+  change (pcfg_of (rwith_inverse false c)) with (set_inverse (pcfg_of c) false).
+  change (pcfg_of (rwith_inverse true c)) with (set_inverse (pcfg_of c) true).
+  rewrite (profile_inverse_flag_tracked (pcfg_of c) (tmode_of c) (r_cap c) g ins Ht).
+  destruct (profile (set_inverse (pcfg_of c) true) ins g) as [[[P C] ID]|[|]]; reflexivity.
+Qed.
+
+(** without inverse paths the inverse component of a class entry is not read *)
+Lemma shex_class_strip fa cfg thr C ce :
+  x_inverse cfg = false ->
+  shex_class fa cfg thr C (fst ce, strip_c (snd ce)) = shex_class fa cfg thr C ce.
+Proof. intros H. unfold shex_class. cbn [fst snd strip_c c_direct]. rewrite H. reflexivity. Qed.
+
+Lemma map_err_shex_class_strip fa cfg thr C P :
+  x_inverse cfg = false ->
+  map_err (shex_class fa cfg thr C) (dmapv strip_c P) = map_err (shex_class fa cfg thr C) P.
+Proof.
+  intros H. unfold dmapv. rewrite map_err_map. apply map_err_ext. intros ce _.
+  apply shex_class_strip; exact H.
+Qed.
+
+Lemma shex_strip fa cfg thr C P :
+  x_inverse cfg = false -> shex fa cfg thr (dmapv strip_c P) C = shex fa cfg thr P C.
+Proof. intros H. unfold shex. rewrite map_err_shex_class_strip by exact H. reflexivity. Qed.
+
+(** the relation between a shape of the run with inverse paths and the shape
+    of the run without *)
+Definition direct_part (sh_t sh_f : shape) : Prop :=
+  sh_name sh_t = sh_name sh_f /\ sh_class sh_t = sh_class sh_f /\ sh_n sh_t = sh_n sh_f /\
+  filter is_direct (sh_stmts sh_t) = sh_stmts sh_f.
+
+Lemma classes_direct_part fa cfg thr C P Lt :
+  (forall ce, In ce P -> order_at fa (class_cnt C ce)) ->
+  map_err (shex_class fa (with_inverse true cfg) thr C) P = inl Lt ->
+  exists Lf, map_err (shex_class fa (with_inverse false cfg) thr C) P = inl Lf /\
+             Forall2 direct_part Lt Lf.
+Proof.
+  revert Lt. induction P as [|ce P IH]; intros Lt Hord H; cbn [map_err] in *.
+  - injection H as <-. exists []. split; [reflexivity | constructor].
+  - destruct (shex_class fa (with_inverse true cfg) thr C ce) as [sh_t|e] eqn:Ec; [|discriminate].
+    destruct (map_err (shex_class fa (with_inverse true cfg) thr C) P) as [Lt'|e] eqn:Em; [|discriminate].
+    injection H as <-.
+    destruct (I1_direct_untouched fa cfg thr C ce (Hord ce (or_introl eq_refl)) sh_t Ec)
+      as (sh_f & Ef & H1 & H2 & H3 & H4).
+    destruct (IH Lt' (fun ce' H' => Hord ce' (or_intror H')) eq_refl) as (Lf' & Ef' & HF).
+    rewrite Ef, Ef'. eexists. split; [reflexivity|]. constructor; [|exact HF].
+    unfold direct_part. auto.
+Qed.
+
+Lemma empty_names_nil l : Forall (fun sh => sh_stmts sh <> []) l -> empty_names l = [].
+Proof.
+  intros H. unfold empty_names.
+  rewrite (InverseLemmas.filter_all_false _ l); [reflexivity|].
+  eapply Forall_impl; [|exact H]. intros sh Hs. cbn beta. destruct (sh_stmts sh) eqn:E; [congruence | reflexivity].
+Qed.
+
+Lemma clean_shapes_id fuel l : Forall (fun sh => sh_stmts sh <> []) l -> clean_shapes fuel l = inl l.
+Proof. intros H. destruct fuel; cbn [clean_shapes]; [reflexivity|]. rewrite (empty_names_nil l H). reflexivity. Qed.
+
+Lemma direct_part_nonempty Lt Lf :
+  Forall2 direct_part Lt Lf -> Forall (fun sh => sh_stmts sh <> []) Lf -> Forall (fun sh => sh_stmts sh <> []) Lt.
+Proof.
+  induction 1 as [|a b Lt Lf (_ & _ & _ & Hab) _ IH]; intros H; [constructor|].
+  inversion H as [|? ? Hb Hl]; subst. constructor; [|apply IH; exact Hl].
+  intros E. rewrite E in Hab. cbn in Hab. congruence.
+Qed.
+
+(** the shapes before [_clean_empty_shapes] *)
+Definition run_raw (fa : FreqAlg) (c : rcfg) (thr : F fa) (g : graph) : (nsdict * list shape) + rerr :=
+  match full_ns c with
+  | None => inr RERandom
+  | Some ns =>
+    match front c g with
+    | inr e => inr e
+    | inl (P, C) =>
+      match map_err (shex_class fa (scfg_of c ns) thr C) P with
+      | inr e => inr (rerr_of_s e)
+      | inl s => inl (ns, s)
+      end
+    end
+  end.
+
+Lemma run_raw_keep fa c thr g : r_remove_empty c = false -> run_shapes fa c thr g = run_raw fa c thr g.
+Proof.
+  intros H. rewrite run_shapes_front. unfold run_raw, shex.
+  destruct (full_ns c) as [ns|]; [|reflexivity]. destruct (front c g) as [[P C]|e]; [|reflexivity].
+  cbn [x_remove_empty scfg_of]. rewrite H.
+  destruct (map_err (shex_class fa (scfg_of c ns) thr C) P); reflexivity.
+Qed.
+
+(** before the shape-level cleaning, for every frequency algebra on whose
+    class sizes [fle] is a total preorder: all of C14's I1 at run level *)
+Theorem run_raw_direct_unchanged fa c thr g ns Lt :
+  (forall n, order_at fa n) ->
+  run_raw fa (rwith_inverse true c) thr g = inl (ns, Lt) ->
+  exists Lf, run_raw fa (rwith_inverse false c) thr g = inl (ns, Lf) /\ Forall2 direct_part Lt Lf.
+Proof.
+  intros Hord H. unfold run_raw in *. rewrite front_inverse_flag.
+  change (full_ns (rwith_inverse false c)) with (full_ns c).
+  change (full_ns (rwith_inverse true c)) with (full_ns c) in H.
+  destruct (full_ns c) as [ns0|]; [|discriminate].
+  destruct (front (rwith_inverse true c) g) as [[P C]|e]; [|discriminate].
+  change (scfg_of (rwith_inverse true c) ns0) with (with_inverse true (scfg_of c ns0)) in H.
+  change (scfg_of (rwith_inverse false c) ns0) with (with_inverse false (scfg_of c ns0)).
+  destruct (map_err (shex_class fa (with_inverse true (scfg_of c ns0)) thr C) P) as [l|e] eqn:E; [|discriminate].
+  injection H as <- <-.
+  destruct (classes_direct_part fa (scfg_of c ns0) thr C P l (fun ce _ => Hord _) E) as (Lf & Ef & HF).
+  rewrite map_err_shex_class_strip by reflexivity. rewrite Ef. eauto.
+Qed.
+
+(** remove_empty_shapes off: unconditional *)
+Theorem run_direct_unchanged_keep fa c thr g ns st :
+  (forall n, order_at fa n) ->
+  r_remove_empty c = false ->
+  run_shapes fa (rwith_inverse true c) thr g = inl (ns, st) ->
+  exists sf, run_shapes fa (rwith_inverse false c) thr g = inl (ns, sf) /\ Forall2 direct_part st sf.
+Proof.
+  intros Hord Hre H. rewrite run_raw_keep in * by exact Hre.
+  exact (run_raw_direct_unchanged fa c thr g ns st Hord H).
+Qed.
+
+(** any setting of remove_empty_shapes, when no shape of the run without
+    inverse paths is empty before the shape-level cleaning (then that cleaning
+    is the identity in both runs; the profile-level cleaning is covered by P1
+    with no side condition) *)
+Theorem run_direct_unchanged_nonempty fa c thr g ns st :
+  (forall n, order_at fa n) ->
+  (forall ns' L, run_raw fa (rwith_inverse false c) thr g = inl (ns', L) ->
+                 Forall (fun sh => sh_stmts sh <> []) L) ->
+  run_shapes fa (rwith_inverse true c) thr g = inl (ns, st) ->
+  exists sf, run_shapes fa (rwith_inverse false c) thr g = inl (ns, sf) /\ Forall2 direct_part st sf.
+Proof.
+  intros Hord Hne H. rewrite run_shapes_front in *. rewrite front_inverse_flag.
+  unfold run_raw in Hne. rewrite front_inverse_flag in Hne.
+  change (full_ns (rwith_inverse false c)) with (full_ns c) in *.
+  change (full_ns (rwith_inverse true c)) with (full_ns c) in H.
+  destruct (full_ns c) as [ns0|]; [|discriminate].
+  destruct (front (rwith_inverse true c) g) as [[P C]|e]; [|discriminate].
+  change (scfg_of (rwith_inverse true c) ns0) with (with_inverse true (scfg_of c ns0)) in H.
+  change (scfg_of (rwith_inverse false c) ns0) with (with_inverse false (scfg_of c ns0)) in *.
+  rewrite shex_strip by reflexivity. rewrite map_err_shex_class_strip in Hne by reflexivity.
+  unfold shex in *.
+  destruct (map_err (shex_class fa (with_inverse true (scfg_of c ns0)) thr C) P) as [Lt|e] eqn:E; [|discriminate].
+  destruct (classes_direct_part fa (scfg_of c ns0) thr C P Lt (fun ce _ => Hord _) E) as (Lf & Ef & HF).
+  rewrite Ef in *. specialize (Hne ns0 Lf eq_refl).
+  pose proof (direct_part_nonempty Lt Lf HF Hne) as Hnt.
+  change (x_remove_empty (with_inverse true (scfg_of c ns0))) with (r_remove_empty c) in H.
+  change (x_remove_empty (with_inverse false (scfg_of c ns0))) with (r_remove_empty c).
+  destruct (r_remove_empty c).
+  - rewrite clean_shapes_id in H by exact Hnt. rewrite clean_shapes_id by exact Hne.
+    injection H as <- <-. eauto.
+  - injection H as <- <-. eauto.
+Qed.
